@@ -17,7 +17,8 @@ TRUSTED_BASE = [
     "hand-written glue: harness/ml/common.ml.in, ta_io.ml.in, c01_main.ml, harness/drv/c01.cc + common.hh (public API, protocol of cli/operations.hh), harness/gen.py, harness/core.py",
     "modelled, not verified: the four inclusion algorithms, antichains, caches, SanitizeAutsForInclusion, ComputeSimulation as used here; tied by verdict equality with the verified decider incl_dec on generated pairs",
 ]
-ASSUMPTIONS = ["verdicts are obtained following the documented protocol (sanitize; with simulation: UnionDisjointStates + ComputeSimulation(n) + SetSimulation)",
+ASSUMPTIONS = ["a selection that exceeds the per-case time limit (2 s) is inconclusive (counted as `timeout` in the distribution), never a violation",
+               "verdicts are obtained following the documented protocol (sanitize; with simulation: UnionDisjointStates + ComputeSimulation(n) + SetSimulation)",
                "correspondence is sampling: an input shape no generator produces is not covered; algorithms with simulation/caches are tied at function level only"]
 FLAVOURS = {"quick": ["plain"], "thorough": ["plain", "asan"]}
 
@@ -51,6 +52,14 @@ def targeted(rng):
         out.append((a, b))
     return out
 
+def split_family(rng, n):
+    out = []
+    for _ in range(n):
+        a, b = gen.split_pair(rng)
+        if rng.random() < 0.3: b, _ = gen.permute_states(rng, b)
+        out.append((a, b) if rng.random() < 0.85 else (b, a))
+    return out
+
 def cases(rng, tier):
     cs = [(l, "corpus") for l in CORPUS]
     bs = list(gen.enum_ta(1, 2))
@@ -60,6 +69,7 @@ def cases(rng, tier):
     if tier == "quick":
         cs = cs[:len(CORPUS)] + rng.sample(cs[len(CORPUS):], 4000) if False else cs
     for (a, b) in targeted(rng): cs.append(("incl %s %s" % (a.fmt(), b.fmt()), "targeted"))
+    for (a, b) in split_family(rng, 5000 if tier == "quick" else 150000): cs.append(("incl %s %s" % (a.fmt(), b.fmt()), "targeted_split"))
     n = 2000 if tier == "quick" else 40000
     for _ in range(n):
         sg = rng.choice([gen.SIGMA, gen.SIGMA, gen.SIGMA3])
@@ -69,7 +79,7 @@ def cases(rng, tier):
 
 def nontrivial(c, impl, verd): return " Anonempty" in verd and " Bnonempty" in verd
 def observe(dist, c, impl, verd):
-    for k in ("included", "notincluded", "Aempty", "Bempty"):
+    for k in ("included", "notincluded", "Aempty", "Bempty", "timeout"):
         if (" " + k) in verd: dist[k] = dist.get(k, 0) + 1
 def shrink_candidates(c): return gen.shrink_automata(c)
 def explain(c, impl, verd):
